@@ -67,7 +67,8 @@ pub trait RollingValidCmp<T: IsNone>: Vec1View<T> {
                         }
                     }
                     let out = if n >= min_periods {
-                        min_idx
+                        // an all-null window has no minimum, hence no position of it
+                        min.and(min_idx)
                             .map(|min_idx| (min_idx - start.unwrap_or(0) + 1).f64())
                             .unwrap_or(f64::NAN)
                             .cast()
@@ -219,7 +220,8 @@ pub trait RollingValidCmp<T: IsNone>: Vec1View<T> {
                         }
                     }
                     let out = if n >= min_periods {
-                        max_idx
+                        // an all-null window has no maximum, hence no position of it
+                        max.and(max_idx)
                             .map(|max_idx| (max_idx - start.unwrap_or(0) + 1).f64())
                             .unwrap_or(f64::NAN)
                             .cast()
